@@ -75,8 +75,8 @@ def check(ctx: Ctx) -> None:
 
     # ---------------- R18.1 -------------------------------------------------------------
     blocks = _blocks(model)
-    if len(blocks) < 12:
-        raise AnalysisError(f"R18.1: only {len(blocks)} Progress blocks found (floor 12)")
+    if len(blocks) < 10:
+        raise AnalysisError(f"R18.1: only {len(blocks)} Progress blocks found (floor 10; 12 on the reviewed tree)")
     jobs = [(str(ctx.repo.root), fi.qname, n.lineno) for fi, n in blocks]
     workers = min(len(jobs), os.cpu_count() or 4)
     with ProcessPoolExecutor(max_workers=workers) as ex:
@@ -103,8 +103,8 @@ def check(ctx: Ctx) -> None:
         else:
             ctx.ok()
         ctx.sample({"block": name, "paths": r["paths"], "max_increments": r["max_count"], "slacks": r["slacks"][:4], "lemmas": r["lemmas"]}, cap=14)
-    if analysed < 11:
-        raise AnalysisError(f"R18.1: only {analysed} of {len(blocks)} Progress blocks could be analysed (floor 11)")
+    if analysed < len(blocks) - 1 or analysed < 9:
+        raise AnalysisError(f"R18.1: only {analysed} of {len(blocks)} Progress blocks could be analysed")
     ctx.extra_cov["progress_blocks"] = {"found": len(blocks), "analysed": analysed}
 
     # ---------------- R18.2 -------------------------------------------------------------
